@@ -234,6 +234,53 @@ def jobshop_opt(inst):
     return best[0]
 
 
+def jobshop_semi_active(inst, limit=200000):
+    """all semi-active schedules of a (flexible) job shop as a set of tuples ((machine, start) per real op, in op order):
+    every (next job, eligible machine) decision sequence with the operation placed at max(job ready, machine ready).
+    Returns (set, complete)."""
+    proc = inst["proc"]
+    M = len(proc)
+    pad = inst["pad"]
+    jobs = []
+    for s_, e_ in zip(inst["job_start"], inst["job_end"]):
+        ops = [o for o in range(s_, e_ + 1) if o < len(pad) and not pad[o]]
+        if ops:
+            jobs.append((ops[0], ops[-1]))
+    J = len(jobs)
+    real = sorted(o for a, b in jobs for o in range(a, b + 1))
+    out = set()
+    place = {}
+    budget = [limit]
+
+    def rec(nxt, jready, mready):
+        if budget[0] <= 0:
+            return
+        if all(nxt[j] > jobs[j][1] for j in range(J)):
+            out.add(tuple(place[o] for o in real))
+            budget[0] -= 1
+            return
+        for j in range(J):
+            o = nxt[j]
+            if o > jobs[j][1]:
+                continue
+            for m in range(M):
+                p = proc[m][o]
+                if p <= 0:
+                    continue
+                s = max(jready[j], mready[m])
+                nxt[j] += 1
+                oj, om = jready[j], mready[m]
+                jready[j], mready[m] = s + p, s + p
+                place[o] = (m, float(s))
+                rec(nxt, jready, mready)
+                nxt[j] -= 1
+                jready[j], mready[m] = oj, om
+                del place[o]
+
+    rec([a for a, _ in jobs], [0.0] * J, [0.0] * M)
+    return out, budget[0] > 0
+
+
 def flowshop_opt(inst):
     """inst: dur[job][machine_global]; stages x machines per stage; each job passes the stages in order, on any one
     machine of the stage. Optimal makespan over semi-active schedules."""
